@@ -20,7 +20,7 @@ func init() {
 			"distinct_nontrivial counts distinct (history shape, window kind) signatures of histories in which at least one trip is assigned",
 		Cases: func(tier string) int {
 			if tier == "thorough" {
-				return 600000 + 4*len(c15FeedCounts(tier))
+				return 1200000 + 4*len(c15FeedCounts(tier))
 			}
 			return 20000 + 4*len(c15FeedCounts(tier))
 		},
